@@ -1,6 +1,7 @@
 package main
 
 import (
+	"net"
 	"context"
 	"sort"
 	"encoding/json"
@@ -143,6 +144,12 @@ func measure(entry string, in []byte) (alloc, retained int, ok bool) {
 // measureChild runs the measurement in a child process (own heap, hard time limit): a decode that does
 // not finish within the limit is reported as killed, with a lower bound of 1 TiB allocated.
 func measureChild(entry string, in []byte) (alloc, retained int, ok, killed bool) {
+	return measureChildAfter(entry, in, "", nil)
+}
+
+// measureChildAfter: the same, in a process that has decoded (and dropped) the datagram hist before: what a datagram
+// costs must not depend on what the process has received earlier
+func measureChildAfter(entry string, in []byte, hentry string, hist []byte) (alloc, retained int, ok, killed bool) {
 	f, err := os.CreateTemp("", "vh-cost-*")
 	if err != nil {
 		panic(err)
@@ -150,9 +157,20 @@ func measureChild(entry string, in []byte) (alloc, retained int, ok, killed bool
 	defer os.Remove(f.Name())
 	f.Write(in)
 	f.Close()
+	args := []string{"measure", entry, f.Name()}
+	if hentry != "" {
+		h, err := os.CreateTemp("", "vh-cost-h-*")
+		if err != nil {
+			panic(err)
+		}
+		defer os.Remove(h.Name())
+		h.Write(hist)
+		h.Close()
+		args = append(args, hentry, h.Name())
+	}
 	ctx, cancel := context.WithTimeout(context.Background(), 25*time.Second)
 	defer cancel()
-	cmd := exec.CommandContext(ctx, os.Args[0], "measure", entry, f.Name())
+	cmd := exec.CommandContext(ctx, os.Args[0], args...)
 	cmd.Env = append(os.Environ(), "GOMEMLIMIT=3GiB")
 	out, err := cmd.Output()
 	if err != nil {
@@ -168,10 +186,20 @@ func measureChild(entry string, in []byte) (alloc, retained int, ok, killed bool
 	return r.Alloc, r.Retained, r.Ok, false
 }
 
-func measureMain(entry, path string) {
+func measureMain(args ...string) {
+	entry, path := args[0], args[1]
 	in, err := os.ReadFile(path)
 	if err != nil {
 		panic(err)
+	}
+	if len(args) == 4 { // the history: received, decoded, re-encoded and dropped three times before the measurement
+		hist, err := os.ReadFile(args[3])
+		if err != nil {
+			panic(err)
+		}
+		for k := 0; k < 3; k++ {
+			measure(args[2], hist)
+		}
 	}
 	a, r, ok := measure(entry, in)
 	b, _ := json.Marshal(map[string]any{"Alloc": a, "Retained": r, "Ok": ok})
@@ -293,6 +321,58 @@ func costFamilies(rng *rand.Rand, n int) []struct {
 		}
 		b := ia(n-8, tlv6(8, []byte{0, 0, 0}))
 		out = append(out, fam{"v6-ia-nesting-bad-inner", "v6", append(append([]byte{}, hdr6...), b...), 2 * (len(b) / 52)})
+	}
+	// F4d: nesting in which every level carries 1..3 octets of padding (zeroes, or junk) after its nested option, inside
+	// its own length: every level is malformed, and rejecting the datagram must not cost more than reading it once
+	{
+		type kind struct {
+			name   string
+			fixed  int // octets in front of the nested options
+			code   int
+			inner  int // code of the option nested directly inside (0: the same container again)
+			ifixed int
+		}
+		kinds := []kind{{"iana", 12, 3, 5, 24}, {"iapd", 12, 25, 26, 25}, {"iata", 4, 4, 5, 24}, {"4rd", 0, 97, 0, 0}, {"vendoropts", 4, 17, 0, 0}}
+		for _, kd := range kinds {
+			for _, pad := range [][]byte{{0}, {0, 0}, {0, 0, 0}, {0xff}} {
+				var build func(room int) []byte
+				build = func(room int) []byte {
+					need := 4 + kd.fixed + len(pad)
+					if kd.inner != 0 {
+						need += 4 + kd.ifixed
+					}
+					if room < need+8 {
+						return nil
+					}
+					in := build(room - need)
+					if kd.inner != 0 {
+						body := append(make([]byte, kd.ifixed), in...)
+						if kd.inner == 26 {
+							body[8] = 64
+						}
+						in = tlv6(kd.inner, body)
+					}
+					return tlv6(kd.code, append(append(make([]byte, kd.fixed), in...), pad...))
+				}
+				lim := n - 8
+				if lim > 4000 {
+					lim = 4000 // depth is what matters here
+				}
+				b := build(lim)
+				per := 4 + kd.fixed + len(pad) + 4 + kd.ifixed
+				out = append(out, fam{fmt.Sprintf("v6-%s-nesting-padded-%d", kd.name, len(pad)), "v6", append(append([]byte{}, hdr6...), b...), 2 * (len(b) / per)})
+			}
+		}
+		// relay chains whose every level has padding after the relay message option
+		for _, pad := range [][]byte{{0}, {0, 0, 0}} {
+			inner := []byte{1, 1, 2, 3}
+			depth := 0
+			for len(inner)+38+len(pad) <= n && len(inner)+38+len(pad) <= 4000 {
+				inner = append(append(append([]byte{12, byte(depth)}, make([]byte, 32)...), tlv6(9, inner)...), pad...)
+				depth++
+			}
+			out = append(out, fam{fmt.Sprintf("v6-relay-nesting-padded-%d", len(pad)), "v6", inner, depth})
+		}
 	}
 	// F4c: one list-valued option filled to the size with distinct items (request list, address lists, class data,
 	// vendor sub-options, many addresses in one identity association, many names without pointers)
@@ -523,6 +603,24 @@ func genC09(o *Out, rng *rand.Rand, tier string) {
 		o.Emit(map[string]any{"op": "Cost", "family": fam, "entry": c.Entry, "n": len(c.In), "depth": c.Depth, "accepted": ok,
 			"allocKiB": (alloc + 1023) / 1024, "retainedKiB": (retained + 1023) / 1024, "killed": killed || c.Killed,
 			"score": int(c.Score * 1000)}, "climb-"+c.Island, c.In, true)
+	}
+	// small ordinary datagrams received after each of the large witnesses (state kept between decodes)
+	small := map[string][][]byte{"v6": {{1, 1, 2, 3}}, "v4": nil, "label": {{3, 'f', 'o', 'o', 0}}}
+	{
+		sol, _ := dhcpv6.NewSolicit(net.HardwareAddr{2, 0, 0, 0, 0, 7})
+		small["v6"] = append(small["v6"], sol.ToBytes())
+		disc, _ := dhcpv4.NewDiscovery(net.HardwareAddr{2, 0, 0, 0, 0, 7})
+		small["v4"] = append(small["v4"], disc.ToBytes())
+	}
+	for _, f := range costFamilies(rng, sizes[len(sizes)-1]) {
+		if len(f.in) > 65507 {
+			continue
+		}
+		for _, tgt := range small[f.entry] {
+			alloc, retained, ok, killed := measureChildAfter(f.entry, tgt, f.entry, f.in)
+			o.Emit(map[string]any{"op": "Cost", "family": "small-after-" + f.name, "entry": f.entry, "n": len(tgt), "depth": 2, "accepted": ok,
+				"allocKiB": (alloc + 1023) / 1024, "retainedKiB": (retained + 1023) / 1024, "killed": killed}, "history-"+f.name, append(append([]byte{}, tgt...), f.in...), ok || killed)
+		}
 	}
 	for _, n := range sizes {
 		for r := 0; r < reps; r++ {
